@@ -425,6 +425,18 @@ def r_scn_result(e, R):
          "resolves the future", "the result of a pending task is dropped")
     must(e, R, "R-SCN-RESULT", f, "the item is a result whose work item is still pending", [(name(p), ("inst", is_int, False)), (name(wv), "some")], runrem,
          "removes the id from the running list", "finished ids accumulate in the running list: the respawn guard (pending - running) and the feeder hook go wrong")
+    # failed or succeeded?  Decided by `<item>.exception is not None`: a truthiness test runs the user's __bool__/__len__ on the manager
+    # thread and sends an exception whose truth value is False down the *result* branch (the future returns None)
+    rcalls = [n for n in g.nodes if resn(n)]
+    disp = [t for t in g.nodes if t.kind == "test" and any(g.on_branch(r_, t, "T") for r_ in rcalls) and any(g.on_branch(r_, t, "F") for r_ in rcalls)]
+    for t in disp:
+        x = t.ast.operand if isinstance(t.ast, ast.UnaryOp) and isinstance(t.ast.op, ast.Not) else t.ast
+        by_truth = isinstance(x, (ast.Attribute, ast.Name))
+        R.check(not by_truth, "R-SCN-RESULT", f"{f.short}: failure vs success is decided by identity (`is not None`), not by the truth value of the user's exception",
+                f.short, norm(t.ast), f"`if {norm(t.ast)}:` asks the task's exception object for its truth value: an exception class defining __bool__ / __len__ "
+                "that is falsy is delivered as the *result* None (the future succeeds), and a raising __bool__ kills the manager thread", e.loc(f, t.ast))
+    if not disp:
+        raise AnalysisError("result handler: the test choosing between set_exception and set_result is not recognised")
     never(e, R, "R-SCN-RESULT", f, "the work item was already failed by someone else", [(name(p), ("inst", is_int, False)), (name(wv), "none")], resn,
           "a resolution through None", "AttributeError in the manager thread")
     R.floor("R-SCN-RESULT", 6)
